@@ -265,6 +265,8 @@ def run(P, R, tier):
         if P.func(k_, required=False) is not None:
             n_opt += _opt.check_function(P, R, k_)
     R.floor("OPT optional-factor selections", n_opt, 6)
+    from ..engines import traps as _traps
+    _traps.check(P, R, ['factor_analysis'], scope='factor_analysis:(FactorAnalysisBase\\.(_compute_\\w+|_latent_\\w+|compute_latent_x|update_[xyz]|_get_statistics_by_class_id|_sum_[nf]_statistics|initialize_XYZ)|ISVMachine\\.enroll|JFAMachine\\.enroll)')
 
 
 EXPLANATION += ' Also: (POL.residual-placement / PREC.placement) every factor of the residuals multiplies and the UBM variances divide; (OPT) optional factors are used only where present and an absent factor contributes 0 / None; (IDX.class-select) the per-class selection compares labels with ==; (DTYPE.raw) no float is stored into a buffer with the dtype of user statistics.'
